@@ -45,12 +45,12 @@ def make(cfg_in):
         for i in range(cfg['nl']):
             miss = c.bool_var('L%d.miss' % i) if cfg['missing'] == 'sym' else False
             v = None if (miss is not False and bool(miss)) else sym_string(
-                c, 'L%d' % i, cfg['minlen'], cfg['maxlen'], cfg['lens'])
+                c, 'L%d' % i, cfg['minlen'], cfg['maxlen'], cfg.get('lens_l') or cfg['lens'])
             lrows.append((1 + i, v, 'L%d.x' % i, 'L%d.y' % i))
         for i in range(cfg['nr']):
             miss = c.bool_var('R%d.miss' % i) if cfg['missing'] == 'sym' else False
             v = None if (miss is not False and bool(miss)) else sym_string(
-                c, 'R%d' % i, cfg['minlen'], cfg['maxlen'], cfg['lens'])
+                c, 'R%d' % i, cfg['minlen'], cfg['maxlen'], cfg.get('lens_r') or cfg['lens'])
             rrows.append((11 + i, v, 'R%d.x' % i, 'R%d.y' % i))
         cols = ['id', 'attr', 'x', 'y']
         s = dict(entry=cfg['entry'], filter=cfg['filter'], measure='EDIT_DISTANCE', threshold=tau,
